@@ -55,14 +55,19 @@ CLAIM = dict(
     "recomputed from the iterates captured by pass-through wrappers of jacobian / l1_dissipation; only Bregman's aux/force increment is "
     "read from the history the solver wrote) and no fault.",
     note="The hypothesis hupd of newton_preserves_balance is discharged from the model (newton_update_satisfies_hupd, "
-    "newton_model_preserves_balance, mass_row_same_in_every_iterate) and tied: the matrices the live solver assembles in its iterates "
-    "(jacobian / _update_regularization at the first, middle and last captured iterate of every run) equal darcy_init exactly outside the "
-    "diagonal flux-flux block, and darcy_init is tied to the model's assembleFull in C08. The model accepts a nan "
-    "event for Newton although Newton has no NaN branch (harmless: theorems quantify over more). 1^T D = 0 is C06. same_iterate compares "
-    "iterates to 1e-9 and cannot tell stationary iterates apart (then any of them is the last valid one). After a fault in the bookkeeping "
-    "of a pass the convergence_history keeps the entry of the failed pass (not judged). KNOWN FINDINGS: Anderson with a numerically "
-    "rank-deficient least-squares problem (stagnating iteration; detected by a recording wrapper, carried in the signature) breaks the "
-    "mass balance / pressure in float although the algebra preserves it; Bregman's NaN pressure marker after a failed post-processing solve.",
+    "newton_model_preserves_balance, mass_row_same_in_every_iterate) and tied (iterate matrices = darcy_init outside the diagonal "
+    "flux-flux block). The loop model also carries what the handler restores the DISTANCE from (re-bound at the top of every pass, or "
+    "committed by the last statement of every body: commit_matters) and the block after the loop (Bregman's guarded pressure "
+    "post-processing: post_loop_failure_only_marks_pressure; tied by injecting a failure into the post-loop solve). The accelerator "
+    "model includes the column filter of its least-squares problem (anderson_filtered_run_preserves_balance; the stubbed-lstsq tie "
+    "sees which columns are passed). The model accepts a nan event for Newton although Newton has no NaN branch (harmless). 1^T D = 0 "
+    "is C06. same_iterate compares iterates to 1e-9 and cannot tell stationary iterates apart. After a fault in the bookkeeping of a "
+    "pass the convergence_history keeps the entry of the failed pass (not judged). KNOWN FINDINGS (exact classes; everything else is a "
+    "violation): degenerate mobility = a reconstructed cell-centre flux below 1e-10 of the flux scale (weights ~ 1/regularisation, "
+    "Schur complement numerically singular): Newton's returned flux misses D u = f with direct (<= 1e-1 max|f|), amg and cg (<= max|f|, "
+    "cg also NaN), cg/amg NaN pressures - signatures carry back-end and magnitude class. There is NO mask for Anderson-on runs any more "
+    "(the degenerate least-squares blow-up is fixed upstream; reverting that fix makes the check exit 1) and none for the post-processing "
+    "NaN marker (it does not occur uninjected on main in 480 configurations).",
     technique="Lean 4 proofs (invariant over the loop model; Finset / sumTo algebra) + AST extraction (G2) + fault-injection correspondence + oracle",
 )
 
